@@ -17,6 +17,8 @@ ASSUMPTIONS = [
     "reset mode: a first episode of every length with all queries asked in every state, then Dispatcher.reset(), then every history with all queries in every state",
     "observed mode: one of every observer the library ships (history, unscheduled-operations, 7 feature observers + composite, 2 reward "
     "observers, residual graph updater) is subscribed to the dispatcher; all queries in every state (numpy facade: float32 rounding outside)",
+    "bystander mode: a second dispatcher on the same instance object carrying one of every library observer (one step ahead, own history, "
+    "queried, reset when complete) and a dispatcher on another instance with the same name move before and after every dispatch",
     "in every state an UnscheduledOperationsObserver created only then (late subscription) must report the same view",
     "collections are compared as sets of operation ids plus 'no duplicates'; order is not demanded",
     "is_ongoing/remaining_duration are not among the queries named by the property and are not checked",
@@ -50,6 +52,8 @@ def subspaces(tier):
         out += C.structure_subspaces(D.shapes(2, 2), 2, True, only_flexible=True, mode="pairs")
         out += C.structure_subspaces(D.shapes(2, 3), 2, False, mode="reset")
         out += C.structure_subspaces(D.shapes(3, 3) + [(2, 2)], 2, False, mode="observed")
+        out += C.structure_subspaces(D.shapes(3, 3) + [(2, 2)], 2, False, canonical=True, mode="bystander")
+        out += C.structure_subspaces(D.shapes(3, 3), 2, False, canonical=True, mode="bystander", filter="default_pair")
         out += C.wide_subspaces(mode="observed", pairs=((1, 8), (4, 5))) + C.tall_subspaces(mode="observed")
         for f in ("dominated", "non_idle", "non_immediate_machines", "non_immediate_ops"):
             out += C.structure_subspaces(D.shapes(3, 3), 2, False, canonical=True, mode="pairs", filter=f)
@@ -59,6 +63,9 @@ def subspaces(tier):
             out += C.structure_subspaces(D.shapes(2, 2), 2, True, only_flexible=True, mode="pairs", filter=f)
         out += C.structure_subspaces(D.shapes(3, 4), 2, False, mode="reset")
         out += C.structure_subspaces(D.shapes(3, 4), 2, False, mode="observed")
+        out += C.structure_subspaces(D.shapes(3, 4), 2, False, mode="bystander")
+        out += C.structure_subspaces(D.shapes(3, 3), 2, False, mode="bystander", filter="default_pair")
+        out += C.structure_subspaces(D.shapes(2, 2), 2, True, only_flexible=True, mode="bystander")
         out += C.wide_subspaces(mode="observed") + C.tall_subspaces(mode="observed")
         out += C.structure_subspaces(D.shapes(3, 3), 2, False, mode="observed", filter="default_pair")
         out += C.structure_subspaces(D.shapes(3, 4), 2, False, mode="pairs")
@@ -69,7 +76,7 @@ def subspaces(tier):
 
 
 def cost(sp):
-    return C.cost(sp) * {"pairs": 1, "split": 1, "triples": 14, "reset": 0.2, "observed": 0.2}[sp["mode"]]
+    return C.cost(sp) * {"pairs": 1, "split": 1, "triples": 14, "reset": 0.2, "observed": 0.2, "bystander": 0.2}[sp["mode"]]
 
 
 # ---------------------------------------------------------------------------
@@ -217,7 +224,7 @@ def _safe(eng, q, ctx, fn):
 
 
 def extra_models(sp):
-    return models.numpy_facade_models(include_rl=True) if sp["mode"] == "observed" else []
+    return models.numpy_facade_models(include_rl=True) if sp["mode"] in ("observed", "bystander") else []
 
 
 def harness(eng, sp):
@@ -230,6 +237,7 @@ def harness(eng, sp):
     if sp["mode"] == "observed":
         # one of every observer the library ships is subscribed: none of them may disturb what the dispatcher reports
         C.attach_library_observers(main, inst, "atj")
+    by = C.Bystander(inst, observers=True) if sp["mode"] == "bystander" else None
     spec = Spec(desc)
     if filt:
         # with a filter installed 'available' is what the real filter keeps of a pristine ready list on a replica
@@ -321,7 +329,11 @@ def harness(eng, sp):
             break
         op, m = D.choose_dispatch(eng, desc, spec)
         prev_spec = spec.copy()
+        if by:
+            by.step()
         main.dispatch(D.op_by_id(inst, op), m)
+        if by:
+            by.step()
         spec.apply(op, m)
         eng.reachable("transition")
         eng.observe("now", main.current_time())
